@@ -122,7 +122,7 @@ func runRoundTripCase(c *kit.Case, unit int, version string) {
 	}
 	e := baseFor(r, unit, version)
 	if e.err != nil {
-		r.Inconclusive("W3 %s: cannot build valid base: %v", version, e.err)
+		baseBuildFailed(r, "W3", version, e.err)
 		return
 	}
 	roundTrip(c, "lock", version, "generated", e.lockJSON)
